@@ -143,7 +143,8 @@ func (r *reference) resolveRef(cfg *Config, opts *options) (value, error) {
 }
 
 func (r *reference) resolveEnv(cfg *Config, opts *options) (string, parse.Config, error) {
-	var err error
+	// without any resolver nothing knows the name
+	var err error = ErrMissing
 
 	if len(opts.resolvers) > 0 {
 		key := r.Path.String()
